@@ -83,7 +83,10 @@ main()
 """
 
 
-def run_potable_main(args, input_text, outname="out.tab"):
+JUNK = b"stale line of an earlier, longer table 0.12345678 9.87654321\n" * 6000
+
+
+def run_potable_main(args, input_text, outname="out.tab", preexisting=True):
     """potable's own main() called in this process with a patched sys.argv (argument parsing, option glue, output
     file handling and exit status are the real ones; only the interpreter start-up is saved).
     Returns the same dict as run_potable()."""
@@ -95,6 +98,10 @@ def run_potable_main(args, input_text, outname="out.tab"):
         with open(inp, "wb" if isinstance(input_text, bytes) else "w") as f:
             f.write(input_text)
         out = os.path.join(d, outname) if outname is not None else None
+        if out and preexisting:
+            # the output path already exists and holds a LONGER file (an earlier, bigger tabulation): it is replaced
+            with open(out, "wb") as f:
+                f.write(JUNK)
         argv = ["potable", inp] + ([out] if out else []) + list(args)
         old_argv, old_cwd = sys.argv, os.getcwd()
         so, se = io.StringIO(), io.StringIO()
